@@ -116,6 +116,13 @@ func (r *request) buildHTTP(mediaType, basePath string, producers map[string]run
 	var body io.Reader
 	var pr *io.PipeReader
 	var pw *io.PipeWriter
+	var built bool
+	defer func() {
+		if pr != nil && !built {
+			// the request is abandoned: unblock the multipart writer goroutine so that it terminates and closes the files
+			_ = pr.Close()
+		}
+	}()
 
 	r.buf = bytes.NewBuffer(nil)
 	if r.payload != nil || len(r.formFields) > 0 || len(r.fileFields) > 0 {
@@ -144,6 +151,14 @@ func (r *request) buildHTTP(mediaType, basePath string, producers map[string]run
 				pw.Close()
 			}()
 
+			defer func() {
+				for _, ff := range r.fileFields {
+					for _, ffi := range ff {
+						ffi.Close()
+					}
+				}
+			}()
+
 			for fn, v := range r.formFields {
 				for _, vi := range v {
 					if err := mp.WriteField(fn, vi); err != nil {
@@ -153,13 +168,6 @@ func (r *request) buildHTTP(mediaType, basePath string, producers map[string]run
 				}
 			}
 
-			defer func() {
-				for _, ff := range r.fileFields {
-					for _, ffi := range ff {
-						ffi.Close()
-					}
-				}
-			}()
 			for fn, f := range r.fileFields {
 				for _, fi := range f {
 					var fileContentType string
@@ -345,6 +353,7 @@ DoneChoosingBodySource:
 
 	req.URL.RawQuery = r.query.Encode()
 	req.Header = r.header
+	built = true
 
 	return req, nil
 }
